@@ -34,8 +34,8 @@ Proof. exact ckey_value_is_eq. Qed.
    structural identity, so the hand-written Hash agrees with Eq and the HashSet behaves like a set *)
 Theorem C10_eq_is_identity : forall a b, canonical a -> canonical b -> same_order a b -> jeqb a b = true -> a = b.
 Proof. exact jeqb_canonical_eq. Qed.
-Theorem C10_hash_coherent : forall a b,
-  canonical a -> canonical b -> same_order a b -> jeqb a b = true -> hash_feed a = hash_feed b.
+Theorem C10_hash_coherent : forall (mh : list hw -> N) a b,
+  canonical a -> canonical b -> same_order a b -> jeqb a b = true -> hash_feed mh a = hash_feed mh b.
 Proof. exact hash_coherent. Qed.
 Print Assumptions C10_hash_coherent.
 
